@@ -961,6 +961,15 @@ func (e *Exec) cutLoopHead(fn *ssa.Function, fc *FuncContract, l *loopInfo, st *
 		}
 	}
 	e.havocKeysSorted(st, keys, all)
+	// call counters are non-negative and bounded (assumption: fewer than 2^40 calls per invocation)
+	for name, t := range e.ghostTypes {
+		if strings.HasSuffix(name, "_calls") || strings.HasSuffix(name, "_count") {
+			if _, hv := keys["ghost|"+name]; hv {
+				g := e.ghostGet(st, name, t, e.sc.zero(t))
+				e.assume(st, and(e.le(e.sc.idxLit(0), g.S), e.le(g.S, e.sc.idxLit(maxLen))))
+			}
+		}
+	}
 	defer func() {
 		if e.curFn == e.fn {
 			if e.loopHeadSt == nil {
